@@ -135,4 +135,276 @@ theorem callInputs_of_inputsOK {α : Type} (c : Ctor) (flds : List (String × Fi
     have hx2 : x.2 = x.1 := h1 x (List.mem_of_find?_eq_some hfind)
     simp [hx2, hx1]
 
+/-! spellings (error branch included) -/
+
+/-- what a conforming constructor does with one attribute, for every spelling -/
+def expectedAttrE (spelled : String → Spell) (a : SAttr) (w : AttrWire) : Option (Option (String × Val)) :=
+  if rejects a (spelled a.name) then Option.none else some (acceptedAttr spelled a w)
+
+/-- what `defaultOK` says, case by case -/
+theorem defaultOK_cases (optional : Bool) (k : AttrKind) (pd : Option Val) (a : SAttr)
+    (h : defaultOK optional k pd a = true) :
+    (a.required = true ∧ optional = false ∧ pd = Option.none ∧ a.default = Val.none) ∨
+    (a.required = false ∧ a.default = Val.none ∧ optional = true ∧ pd = some Val.none) ∨
+    (a.required = false ∧ a.default ≠ Val.none ∧ optional = false ∧
+      ∃ v, pd = some v ∧ v ≠ Val.none ∧ encode k v = a.default) := by
+  unfold defaultOK at h
+  by_cases hreq : a.required = true
+  · simp only [hreq, if_true, Bool.and_eq_true, beq_iff_eq] at h
+    obtain ⟨⟨ho, hpn⟩, hdn⟩ := h
+    left
+    exact ⟨hreq, by simpa using ho, by simpa using hpn, hdn⟩
+  · have hreq' : a.required = false := by simpa using hreq
+    simp only [hreq', Bool.false_eq_true, if_false] at h
+    by_cases hdn : a.default = Val.none
+    · simp only [hdn, beq_self_eq_true, if_true, Bool.and_eq_true, beq_iff_eq] at h
+      right; left
+      exact ⟨hreq', hdn, h.1, h.2⟩
+    · have hb : (a.default == Val.none) = false := by simpa using hdn
+      simp only [hb, Bool.false_eq_true, if_false] at h
+      right; right
+      cases hpd : pd with
+      | none => rw [hpd] at h; simp at h
+      | some v =>
+        rw [hpd] at h
+        simp only [Bool.and_eq_true, bne_iff_ne, ne_eq, beq_iff_eq] at h
+        obtain ⟨ho, hv, he⟩ := h
+        exact ⟨hreq', hdn, by simpa using ho, v, rfl, hv, he⟩
+
+theorem callAttrE_of_attrOK (ps : List Param) (f : AttrField) (w : AttrWire) (a : SAttr)
+    (spelled : String → Spell) (h : attrOK ps f w a = true) :
+    callAttrE ps spelled w = expectedAttrE spelled a w := by
+  unfold attrOK at h
+  simp only [Bool.and_eq_true, beq_iff_eq] at h
+  obtain ⟨⟨⟨⟨⟨⟨⟨_, _⟩, hon⟩, hpar⟩, _⟩, hk⟩, hm⟩, hrest⟩ := h
+  cases hf : findParam ps a.name with
+  | none => rw [hf] at hrest; simp at hrest
+  | some p =>
+    rw [hf] at hrest
+    simp only [Bool.and_eq_true] at hrest
+    obtain ⟨_, hd⟩ := hrest
+    have hc := defaultOK_cases _ _ _ _ hd
+    unfold callAttrE expectedAttrE acceptedAttr
+    rw [hpar]
+    cases hs : spelled a.name with
+    | ok v => simp [bound, mkAttr, rejects, hon]
+    | bad => simp [bound, mkAttr, rejects]
+    | none =>
+      rcases hc with ⟨hr, ho, _, _⟩ | ⟨hr, hdn, ho, _⟩ | ⟨hr, hdn, ho, _⟩
+      · simp [bound, mkAttr, rejects, hm, ho, hr]
+      · simp [bound, mkAttr, rejects, hm, ho, hr, hdn]
+      · simp [bound, mkAttr, rejects, hm, ho, hr, hdn]
+    | omitted =>
+      rcases hc with ⟨hr, ho, hp, _⟩ | ⟨hr, hdn, ho, hp⟩ | ⟨hr, hdn, ho, v, hp, hv, he⟩
+      · simp [bound, hf, hp, rejects, hr]
+      · simp [bound, hf, hp, mkAttr, rejects, hm, ho, hr, hdn]
+      · have hb : bound ps a.name Spell.omitted = some (Spell.ok v) := by
+          simp only [bound, hf, hp]
+        rw [hb]
+        simp [mkAttr, rejects, hr, hdn, hon, hk, he]
+
+theorem callAttrsE_of_attrsOK (ps : List Param) (spelled : String → Spell) :
+    (fs : List AttrField) → (ws : List AttrWire) → (as : List SAttr) →
+    attrsOK ps fs ws as = true →
+    ws.map (callAttrE ps spelled) = List.zipWith (expectedAttrE spelled) as ws
+  | [], [], [], _ => rfl
+  | f :: fs, w :: ws, a :: as, h => by
+    simp only [attrsOK, Bool.and_eq_true] at h
+    simp only [List.map_cons, List.zipWith_cons_cons]
+    rw [callAttrE_of_attrOK ps f w a spelled h.1, callAttrsE_of_attrsOK ps spelled fs ws as h.2]
+  | [], [], _ :: _, h => by simp [attrsOK] at h
+  | [], _ :: _, _, h => by simp [attrsOK] at h
+  | _ :: _, [], _, h => by simp [attrsOK] at h
+  | _ :: _, _ :: _, [], h => by simp [attrsOK] at h
+
+theorem allSome_eq_none {γ : Type} (l : List (Option γ)) :
+    allSome l = Option.none ↔ Option.none ∈ l := by
+  induction l with
+  | nil => simp [allSome]
+  | cons x xs ih =>
+    cases x with
+    | none => simp [allSome]
+    | some a =>
+      cases hx : allSome xs with
+      | none => simp [allSome, hx, ih.mp hx]
+      | some l =>
+        have : ¬ (Option.none ∈ xs) := fun hm => by rw [ih.mpr hm] at hx; cases hx
+        simp [allSome, hx, this]
+
+theorem allSome_map_some {γ : Type} (r : List γ) : allSome (r.map some) = some r := by
+  induction r with
+  | nil => rfl
+  | cons b bs ih => simp [allSome, ih]
+
+theorem allSome_eq_some {γ : Type} (l : List (Option γ)) (r : List γ) :
+    allSome l = some r ↔ l = r.map some := by
+  constructor
+  · intro h
+    induction l generalizing r with
+    | nil => simp [allSome] at h; subst h; rfl
+    | cons x xs ih =>
+      cases x with
+      | none => simp [allSome] at h
+      | some a =>
+        cases hx : allSome xs with
+        | none => simp [allSome, hx] at h
+        | some l' =>
+          simp only [allSome, hx, Option.some.injEq] at h
+          subst h
+          simp [ih l' hx]
+  · intro h; subst h; exact allSome_map_some r
+
+/-! the input side, error branch included -/
+
+theorem findParam_of_mem (ps : List Param) (p : Param)
+    (hd : namesDistinct (ps.map (·.name)) = true) (hp : p ∈ ps) : findParam ps p.name = some p := by
+  induction ps with
+  | nil => cases hp
+  | cons q rest ih =>
+    simp only [List.map_cons, namesDistinct, Bool.and_eq_true, Bool.not_eq_true'] at hd
+    obtain ⟨hq, hrest⟩ := hd
+    rcases List.mem_cons.mp hp with rfl | hp'
+    · simp [findParam]
+    · have hne : ¬ q.name = p.name := by
+        intro he
+        have : (rest.map (·.name)).contains q.name = true := by
+          rw [he]; simp only [List.contains_eq_mem, List.mem_map, decide_eq_true_eq]
+          exact ⟨p, hp', rfl⟩
+        rw [this] at hq; cases hq
+      simp only [findParam, beq_iff_eq, hne, if_false]
+      exact ih hrest hp'
+
+/-- the default a conforming positional parameter has, by kind of its input field -/
+def inDefaultShape (k : FieldKind) (d : Option Val) : Prop :=
+  match k with
+  | .single => d = Option.none
+  | .optional => d = some Val.none
+  | .variadic => d = Option.none ∨ d = some (Val.other "()")
+
+theorem inputsOK_params (flds : List (String × FieldKind)) (ws : List (String × String)) (ps : List Param)
+    (h : inputsOK flds ws ps = true) :
+    ∀ f ∈ flds, ∃ p ∈ ps, p.name = f.1 ∧ inDefaultShape f.2 p.default := by
+  induction flds generalizing ws ps with
+  | nil => intro f hf; cases hf
+  | cons f fs ih =>
+    cases ws with
+    | nil => simp [inputsOK] at h
+    | cons w ws =>
+      cases ps with
+      | nil => simp [inputsOK] at h
+      | cons p ps =>
+        simp only [inputsOK, Bool.and_eq_true] at h
+        obtain ⟨h1, h2⟩ := h
+        intro g hg
+        rcases List.mem_cons.mp hg with rfl | hg
+        · unfold inputOK at h1
+          simp only [Bool.and_eq_true, beq_iff_eq] at h1
+          obtain ⟨⟨⟨⟨⟨_, _⟩, hn⟩, _⟩, _⟩, hdef⟩ := h1
+          refine ⟨p, List.mem_cons_self, hn, ?_⟩
+          unfold inDefaultShape
+          cases hk : g.2 <;> rw [hk] at hdef <;> simp_all
+        · obtain ⟨q, hq, hq'⟩ := ih ws ps h2 g hg
+          exact ⟨q, List.mem_cons_of_mem _ hq, hq'⟩
+
+/-- what a conforming constructor does with one input, for every spelling -/
+def expectedInE {α : Type} (ps : List Param) (spelled : String → InSpell α) (f : String × FieldKind) :
+    Option (Emit.Arg α) :=
+  if rejectsIn f.2 (paramHasDefault ps f.1) (spelled f.1) then Option.none
+  else some (acceptedIn f.2 (spelled f.1))
+
+theorem callInputE_of_inputsOK {α : Type} (c : Ctor) (flds : List (String × FieldKind))
+    (h : inputsOK flds c.inputWires (positional c.params) = true)
+    (hd : namesDistinct (c.params.map (·.name)) = true)
+    (spelled : String → InSpell α) (f : String × FieldKind) (hf : f ∈ flds) :
+    callInputE c spelled f = expectedInE c.params spelled f := by
+  obtain ⟨h1, h2⟩ := inputsOK_wires flds c.inputWires _ h
+  obtain ⟨w, hw, he⟩ := h2 f hf
+  obtain ⟨p, hp, hpn, hshape⟩ := inputsOK_params flds c.inputWires _ h f hf
+  have hp' : p ∈ c.params := (List.mem_filter.mp hp).1
+  have hfp : findParam c.params f.1 = some p := by rw [← hpn]; exact findParam_of_mem _ _ hd hp'
+  unfold callInputE expectedInE
+  cases hfind : c.inputWires.find? (fun w => w.1 == f.1) with
+  | none =>
+    have := List.find?_eq_none.mp hfind w hw
+    simp [he] at this
+  | some x =>
+    have hx1 : x.1 = f.1 := by simpa using List.find?_some hfind
+    have hx2 : x.2 = x.1 := h1 x (List.mem_of_find?_eq_some hfind)
+    simp only [hx2, hx1]
+    unfold inDefaultShape at hshape
+    cases hk : f.2 <;> rw [hk] at hshape <;> cases hs : spelled f.1 <;>
+      first
+      | (rcases hshape with hsh | hsh <;>
+          simp_all [boundIn, mkInput, rejectsIn, acceptedIn, paramHasDefault])
+      | simp_all [boundIn, mkInput, rejectsIn, acceptedIn, paramHasDefault]
+
+/-! the closed form of the trimming loop -/
+
+theorem lp_fst (xs : List (Option String)) (a b : Nat) :
+    (xs.foldl (fun (acc : Nat × Nat) x => (acc.1 + 1, if x.isSome then acc.1 + 1 else acc.2)) (a, b)).1
+      = a + xs.length := by
+  induction xs generalizing a b with
+  | nil => rfl
+  | cons x xs ih => simp only [List.foldl_cons, List.length_cons]; rw [ih]; omega
+
+theorem lastPresent_snoc (ys : List (Option String)) (x : Option String) :
+    lastPresent (ys ++ [x]) = if x.isSome then ys.length + 1 else lastPresent ys := by
+  unfold lastPresent
+  rw [List.foldl_append]
+  simp only [List.foldl_cons, List.foldl_nil]
+  have := lp_fst ys 0 0
+  simp only [Nat.zero_add] at this
+  rw [this]
+
+theorem lastPresent_le (xs : List (Option String)) : lastPresent xs ≤ xs.length := by
+  have key : ∀ r : List (Option String), lastPresent r.reverse ≤ r.length := by
+    intro r
+    induction r with
+    | nil => simp [lastPresent]
+    | cons x r ih =>
+      rw [List.reverse_cons, lastPresent_snoc]
+      split
+      · simp
+      · simp only [List.length_cons]; omega
+  have := key xs.reverse
+  simpa using this
+
+theorem trimRev_closed (minN : Nat) (r : List (Option String)) :
+    (Emit.trimRev minN r).reverse = specSlots minN r.reverse := by
+  induction r with
+  | nil => simp [Emit.trimRev, specSlots]
+  | cons x r ih =>
+    cases x with
+    | some v =>
+      simp only [Emit.trimRev, specSlots, List.reverse_cons, lastPresent_snoc, Option.isSome_some, if_true,
+        List.length_append, List.length_reverse, List.length_cons, List.length_nil]
+      rw [List.take_of_length_le]
+      simp only [List.length_append, List.length_reverse, List.length_cons, List.length_nil]
+      omega
+    | none =>
+      simp only [Emit.trimRev]
+      by_cases h : r.length + 1 > minN
+      · rw [if_pos h, ih]
+        simp only [specSlots, List.reverse_cons, lastPresent_snoc, Option.isSome_none, Bool.false_eq_true,
+          if_false, List.length_append, List.length_reverse, List.length_cons, List.length_nil]
+        have hle := lastPresent_le r.reverse
+        simp only [List.length_reverse] at hle
+        have h1 : min minN (r.length + 1) = minN := by omega
+        have h2 : min minN r.length = minN := by omega
+        rw [h1, h2, List.take_append_of_le_length]
+        simp only [List.length_reverse]
+        omega
+      · rw [if_neg h]
+        simp only [specSlots, List.reverse_cons, List.length_append, List.length_reverse, List.length_cons,
+          List.length_nil]
+        rw [List.take_of_length_le]
+        simp only [List.length_append, List.length_reverse, List.length_cons, List.length_nil]
+        omega
+
+/-- `Node.to_onnx`'s popping loop = "cut after the last present name, never below `min`" -/
+theorem emitSlots_closed (minN : Nat) (args : List (Emit.Arg String)) :
+    Emit.emitSlots minN args = specSlots minN (Emit.flatten args) := by
+  unfold Emit.emitSlots Emit.trim
+  rw [trimRev_closed, List.reverse_reverse]
+
 end Conform
